@@ -11,6 +11,7 @@ SPEC = {
         'C18_branch_verifies',
         'C18_dup_tail_same_root',
         'C18_binding',
+        'C18_equal_siblings_flagged',
         'C18_child_roots_verify',
         'C18_example_duptail',
         'C18_example_parallel_and_branch',
@@ -45,8 +46,8 @@ SPEC = {
     'manifest': {
         'level_text': 'full for consistency (parallel = sequential = constant-space = recursive tree root, every worker count and leaf count) and '
                       'provability (every branch verifies, also through child chains) for an arbitrary hash function; binding in the symbolic '
-                      'hash algebra: equal roots imply equal lists or lists related by the duplicated-tail pattern (and that pattern preserves the root); '
-                      'the clause "the pattern is flagged as mutated" is checked on every generated pair by the spec oracle, not proved',
+                      'hash algebra: equal roots imply equal lists or lists related by the duplicated-tail pattern (that pattern preserves the root for every hash), '
+                      'and the longer list is reported as mutated (any two equal aligned sibling blocks set the flag)',
         'level_note': 'Trusted: Coq kernel; crypto/sha256 and the harness reference used to tabulate hashes; taskset/NumCPU; symbolic hash for binding.',
         'technique': 'Coq proof (binary-counter invariant over the leaf list, level-wise reduction lemma for the chunked root) + in-kernel correspondence check with a table-backed hash',
     },
